@@ -41,6 +41,8 @@ func checkC13(R *Run) {
 	R.rule("disconnect-notifies", "Disconnect removes the registry entry, then produces the user-left notice (302 carrying the user's ID) on every path, and closes the connection")
 	R.ruleDisconnectShape("disconnect-notifies")
 	R.ruleIDUnique()
+	R.rule("layout", "(shared with C01) the user record of the fetched list has the protocol layout: 2-byte ID, 2-byte icon, 2-byte flags, 2-byte name length, name")
+	checkLayoutsFiltered(R, func(typ string) bool { return typ == "hotline.User" })
 
 	// ---- refuse-pm
 	regs := R.registeredHandlers()
